@@ -264,7 +264,9 @@ class VariantInterval(AbstractFeatureInterval):
         if location.has_ancestor_of_type(SequenceType.SEQUENCE_CHUNK):
             location = location.lift_over_to_first_ancestor_of_type(SequenceType.CHROMOSOME)
 
-        if len(self.chromosome_location) == len(self.sequence) or location.end <= self.chromosome_location.start:
+        # blocks may be nested, in which case location.end is not the largest block end
+        location_end = max(block.end for block in location.blocks)
+        if len(self.chromosome_location) == len(self.sequence) or location_end <= self.chromosome_location.start:
             if not self.has_sequence:
                 return location.reset_parent(None)
             return self.liftover_location_to_seq_chunk_parent(location, self.parent_with_alternative_sequence)
